@@ -1057,7 +1057,7 @@ func (r *c10Run) stream(e *c10Entry, sources [][]byte, nPrimary int) {
 }
 
 func runC10(c *vh.Ctx) {
-	c.Res.Rule = "per decoder entry point (25: Cedar policy text x5 incl. the streaming decoder, policy/policy-set JSON x3, value/record/set/entity-uid/decimal/datetime/duration/ip/pattern JSON, entity and entity-map JSON, EntityUID text+binary, request, decision/diagnostic, schema text, schema JSON, exptypes with schema): valid documents from the generators + real encoders; null/[]/{}/scalars/dropped/extra/duplicated/upper-cased members substituted at EVERY position of the generic JSON tree; token-level mutants and truncation at every token boundary; byte-level mutants, truncation at every byte, random bytes incl. invalid UTF-8 and NUL; 45 nesting forms at depth 10..10^5 (10^6 thorough) in a subprocess with a 64 MiB stack and a CPU budget, with binary search for the overflow depth; comment-rich policy and schema texts cut at EVERY byte offset (prefix, suffix, 1- and 2-byte deletions) + all strings of length <= 5 over {/,*,space,newline,a,;} alone and after an unfinished document, through all 5 policy-text and the schema-text entry points; long runs (N = 10^3..10^6 consecutive line / block comments, blank lines, annotations, policies, conditions, set elements, record attributes, declarations, namespaces; single identifiers / strings / integers / comments of N bytes) in the same subprocess worker: linear input must neither overflow the 64 MiB stack nor exceed 25x the linear CPU budget; every accepted value goes through every encoder, NewPolicyFromAST, Authorize and Eval(PolicyToNode) on two environments; raw nodeJSON trees corresponded with the Lean WF model (op c10-raw). distinct = distinct (entry, input bytes); non-trivial = the input is a mutant / deep / random document, not a plain valid one"
+	c.Res.Rule = "per decoder entry point (25: Cedar policy text x5 incl. the streaming decoder, policy/policy-set JSON x3, value/record/set/entity-uid/decimal/datetime/duration/ip/pattern JSON, entity and entity-map JSON, EntityUID text+binary, request, decision/diagnostic, schema text, schema JSON, exptypes with schema): valid documents from the generators + real encoders; null/[]/{}/scalars/dropped/extra/duplicated/upper-cased members substituted at EVERY position of the generic JSON tree; token-level mutants and truncation at every token boundary; byte-level mutants, truncation at every byte, random bytes incl. invalid UTF-8 and NUL; 45 nesting forms at depth 10..10^5 (10^6 thorough) in a subprocess with a 64 MiB stack and a CPU budget, with binary search for the overflow depth; 17 growth forms of a few hundred bytes (an unknown key next to a known key at every level of a nested policy-JSON expression, for every kind of known key) at depth 6..30: the CPU budget exhausted on an input below 4 KiB is exponential time (class exponential-time:…); comment-rich policy and schema texts cut at EVERY byte offset (prefix, suffix, 1- and 2-byte deletions) + all strings of length <= 5 over {/,*,space,newline,a,;} alone and after an unfinished document, through all 5 policy-text and the schema-text entry points; long runs (N = 10^3..10^6 consecutive line / block comments, blank lines, annotations, policies, conditions, set elements, record attributes, declarations, namespaces; single identifiers / strings / integers / comments of N bytes) in the same subprocess worker: linear input must neither overflow the 64 MiB stack nor exceed 25x the linear CPU budget; every accepted value goes through every encoder, NewPolicyFromAST, Authorize and Eval(PolicyToNode) on two environments; raw nodeJSON trees corresponded with the Lean WF model (op c10-raw). distinct = distinct (entry, input bytes); non-trivial = the input is a mutant / deep / random document, not a plain valid one"
 	if c.Replay != "" {
 		if c10Replay(c) {
 			return
